@@ -35,45 +35,61 @@ def header (cfg : Cfg) (v : Nat) : Parser (Bytes × Bytes) := do
     Parser.pure (name, ty)
   else Parser.pure (name, ty)
 
+/-- `Infer(gotType)` on a target that is `Inferable` (identity on one that is not): the target with its type
+parameters replaced by the server's, or `none` for an error.  A parameter of the loop: the type-string side of it
+is `Model.Adopt.adopt`; the theorems need only that it leaves the target's name and contents alone (`InfOK`). -/
+abbrev Inf := Target → Bytes → Option Target
+
+def InfOK (inf : Inf) : Prop := ∀ t ty t', inf t ty = some t' → t'.name = t.name ∧ t'.data = t.data
+
+/-- a target that is not `Inferable` -/
+def noInf : Inf := fun t _ => some t
+
 /-- the loop of `DecodeResult` over the block's columns, from column `i` on; `ts` are the targets
-not yet visited (when there are targets at all) -/
-def bindLoop (x : Ext) (cfg : Cfg) (v rows : Nat) (noTarget : Bool) :
+not yet visited (when there are targets at all).  Per column, in the order of the source (`Tie.C18`):
+header (name, type, custom-serialization flag), blank name filled / name compared, `Infer`, `Type().Conflicts`,
+`Reset`, zero-row early-out, state, data. -/
+def bindLoop (x : Ext) (inf : Inf) (cfg : Cfg) (v rows : Nat) (noTarget : Bool) :
     Nat → List Target → Bytes → List Target × Stop
   | 0, ts, bs => (ts, .done bs)
   | n + 1, ts, bs =>
     match header cfg v bs with
     | .ok ((name, ty), bs1) =>
-      if noTarget then bindLoop x cfg v rows noTarget n ts bs1
+      if noTarget then bindLoop x inf cfg v rows noTarget n ts bs1
       else
         match ts with
         | [] => ([], .fail .other)      -- index out of range: excluded by the count check
         | t :: rest =>
           let t1 := if t.name.isEmpty then { t with name := name } else t
           if t1.name ≠ name then (t1 :: rest, .fail .invalid)
-          else if conflicts x ty t1.tyName then (t1 :: rest, .fail .invalid)
           else
-            let t2 := { t1 with data := t1.ty.empty }        -- Reset
-            if rows = 0 then
-              let (rest', s) := bindLoop x cfg v rows noTarget n rest bs1
-              (t2 :: rest', s)
-            else
-              match (do decState t2.ty; decCol cfg t2.ty rows : Parser Col) bs1 with
-              | .ok (c, bs2) =>
-                let (rest', s) := bindLoop x cfg v rows noTarget n rest bs2
-                ({ t2 with data := c } :: rest', s)
-              | .err e => (t2 :: rest, .fail e)
-              | .panic => (t2 :: rest, .fail .other)
-              | .oom => (t2 :: rest, .fail .other)
+            match inf t1 ty with
+            | none => (t1 :: rest, .fail .invalid)                   -- "column type inference" failed
+            | some ta =>
+              if conflicts x ty ta.tyName then (ta :: rest, .fail .invalid)
+              else
+                let t2 := { ta with data := ta.ty.empty }        -- Reset
+                if rows = 0 then
+                  let (rest', s) := bindLoop x inf cfg v rows noTarget n rest bs1
+                  (t2 :: rest', s)
+                else
+                  match (do decState t2.ty; decCol cfg t2.ty rows : Parser Col) bs1 with
+                  | .ok (c, bs2) =>
+                    let (rest', s) := bindLoop x inf cfg v rows noTarget n rest bs2
+                    ({ t2 with data := c } :: rest', s)
+                  | .err e => (t2 :: rest, .fail e)
+                  | .panic => (t2 :: rest, .fail .other)
+                  | .oom => (t2 :: rest, .fail .other)
     | .err e => (ts, .fail e)
     | .panic => (ts, .fail .other)
     | .oom => (ts, .fail .other)
 
 /-- `Results.DecodeResult` -/
-def decodeResult (x : Ext) (cfg : Cfg) (v : Nat) (targets : List Target) (columns rows : Nat) (bs : Bytes) :
+def decodeResult (x : Ext) (inf : Inf) (cfg : Cfg) (v : Nat) (targets : List Target) (columns rows : Nat) (bs : Bytes) :
     List Target × Stop :=
   let noTarget := targets.isEmpty
   if columns ≠ targets.length ∧ ¬ (noTarget ∧ rows = 0) then (targets, .fail .invalid)
-  else bindLoop x cfg v rows noTarget columns targets bs
+  else bindLoop x inf cfg v rows noTarget columns targets bs
 
 end Results
 end Model
